@@ -417,31 +417,34 @@ Definition envelope (m : mode) (v : verdict) (reason : str) : json :=
   | Cursor => cursor_env (verdict_str v) reason
   end.
 
-Definition unduck (s : str) : option str :=
+Definition unduck (s : str) : str :=
   match s with
-  | a :: b :: r => if (a =? 128036) && (b =? 32) then Some r else None
-  | _ => None
+  | a :: b :: r => if (a =? 128036) && (b =? 32) then r else s
+  | _ => s
   end.
 
-(* what each host reads out of the answer (docs/hook-systems/*.md) *)
-Definition decode (m : mode) (j : json) : option (verdict * str) :=
-  match m, j with
-  | Claude, JObj [(k0, JObj [(k1, JStr ev); (k2, JStr d); (k3, JStr r)])] =>
-      if str_eqb k0 $"hookSpecificOutput" && str_eqb k1 $"hookEventName" && str_eqb ev $"PreToolUse"
-         && str_eqb k2 $"permissionDecision" && str_eqb k3 $"permissionDecisionReason"
-      then match verdict_of_str d, unduck r with Some v, Some t => Some (v, t) | _, _ => None end
-      else None
-  | Gemini, JObj [(k1, JStr d); (k2, JStr r)] =>
-      if str_eqb k1 $"decision" && str_eqb k2 $"reason"
-      then match verdict_of_str d, unduck r with Some v, Some t => Some (v, t) | _, _ => None end
-      else None
-  | Cursor, JObj [(k0, JStr d); (k1, JStr r1); (k2, JStr r2); (k3, JStr r3); (k4, JStr r4)] =>
-      if str_eqb k0 $"permission" && str_eqb k1 $"user_message" && str_eqb k2 $"agent_message"
-         && str_eqb k3 $"userMessage" && str_eqb k4 $"agentMessage"
-         && str_eqb r1 r2 && str_eqb r1 r3 && str_eqb r1 r4
-      then match verdict_of_str d, unduck r1 with Some v, Some t => Some (v, t) | _, _ => None end
-      else None
+(* what each host reads out of the answer (docs/hook-systems/*.md): the decision field and the reason
+   field it shows, looked up by name (a JSON reader does not depend on the order of the keys) *)
+Definition read_pair (d r : option json) : option (verdict * str) :=
+  match d, r with
+  | Some (JStr d), Some (JStr r) =>
+      match verdict_of_str d with Some v => Some (v, unduck r) | None => None end
   | _, _ => None
+  end.
+
+Definition decode (m : mode) (j : json) : option (verdict * str) :=
+  match j with
+  | JObj kv =>
+      match m with
+      | Claude =>
+          match assoc $"hookSpecificOutput" kv with
+          | Some (JObj hv) => read_pair (assoc $"permissionDecision" hv) (assoc $"permissionDecisionReason" hv)
+          | _ => None
+          end
+      | Gemini => read_pair (assoc $"decision" kv) (assoc $"reason" kv)
+      | Cursor => read_pair (assoc $"permission" kv) (assoc $"user_message" kv)
+      end
+  | _ => None
   end.
 
 (* schema conformance: exact key set (as a set: order is irrelevant to a JSON reader), value
